@@ -13,19 +13,19 @@ abbrev KAcc (κ : Type) := List (ID × Nat) × List (KNode κ) × List (KNode κ
 
 /-! ## Where the nodes come from -/
 
-theorem decStep_rem_sub (acc : KAcc κ) (pid : ID) {n : KNode κ} (h : n ∈ (decStep acc pid).2.1) : n ∈ acc.2.1 := by
+theorem kDecStep_rem_sub (acc : KAcc κ) (pid : ID) {n : KNode κ} (h : n ∈ (kDecStep acc pid).2.1) : n ∈ acc.2.1 := by
   obtain ⟨deg, rem, ni⟩ := acc
-  rw [decStep_eq] at h
+  rw [kDecStep_eq] at h
   split at h
   · split at h
     · exact (List.mem_filter.mp h).1
     · exact h
   · exact h
 
-theorem decStep_sub (acc : KAcc κ) (pid : ID) {n : KNode κ}
-    (h : n ∈ (decStep acc pid).2.1 ∨ n ∈ (decStep acc pid).2.2) : n ∈ acc.2.1 ∨ n ∈ acc.2.2 := by
+theorem kDecStep_sub (acc : KAcc κ) (pid : ID) {n : KNode κ}
+    (h : n ∈ (kDecStep acc pid).2.1 ∨ n ∈ (kDecStep acc pid).2.2) : n ∈ acc.2.1 ∨ n ∈ acc.2.2 := by
   obtain ⟨deg, rem, ni⟩ := acc
-  rw [decStep_eq] at h
+  rw [kDecStep_eq] at h
   split at h
   · split at h
     · rename_i m hm
@@ -39,16 +39,16 @@ theorem decStep_sub (acc : KAcc κ) (pid : ID) {n : KNode κ}
     · exact h
   · exact h
 
-theorem decFold_rem_sub (pids : List ID) (acc : KAcc κ) {n : KNode κ} (h : n ∈ (pids.foldl decStep acc).2.1) : n ∈ acc.2.1 := by
+theorem decFold_rem_sub (pids : List ID) (acc : KAcc κ) {n : KNode κ} (h : n ∈ (pids.foldl kDecStep acc).2.1) : n ∈ acc.2.1 := by
   induction pids generalizing acc with
   | nil => exact h
-  | cons p ps ih => rw [List.foldl_cons] at h; exact decStep_rem_sub acc p (ih _ h)
+  | cons p ps ih => rw [List.foldl_cons] at h; exact kDecStep_rem_sub acc p (ih _ h)
 
 theorem decFold_sub (pids : List ID) (acc : KAcc κ) {n : KNode κ}
-    (h : n ∈ (pids.foldl decStep acc).2.1 ∨ n ∈ (pids.foldl decStep acc).2.2) : n ∈ acc.2.1 ∨ n ∈ acc.2.2 := by
+    (h : n ∈ (pids.foldl kDecStep acc).2.1 ∨ n ∈ (pids.foldl kDecStep acc).2.2) : n ∈ acc.2.1 ∨ n ∈ acc.2.2 := by
   induction pids generalizing acc with
   | nil => exact h
-  | cons p ps ih => rw [List.foldl_cons] at h; exact decStep_sub acc p (ih _ h)
+  | cons p ps ih => rw [List.foldl_cons] at h; exact kDecStep_sub acc p (ih _ h)
 
 theorem kahnLoop_rem_sub (lt : κ → κ → Bool) (parents : Event → List ID) :
     ∀ (fuel : Nat) (rem : List (KNode κ)) (deg : List (ID × Nat)) (ni graph : List (KNode κ)) {n : KNode κ},
@@ -113,7 +113,7 @@ theorem kahn_subset (lt : κ → κ → Bool) (parents : Event → List ID) (nod
   rw [kahn_eq] at h
   unfold kahnOut at h
   obtain ⟨n, hn, rfl⟩ := List.mem_map.mp h
-  refine ⟨n, mem_kahnNodes ?_, rfl⟩
+  refine ⟨n, mem_kNodes ?_, rfl⟩
   rcases List.mem_append.mp hn with h1 | h1
   · exact kahn_start_sub lt (kahnLoop_sub lt parents _ _ _ _ _ (Or.inl ((mem_sortBy _).mp h1)))
   · exact kahn_start_sub lt (kahnLoop_sub lt parents _ _ _ _ _ (Or.inr h1))
@@ -142,19 +142,19 @@ theorem find_node_perm {U : KNode κ → Prop} (hU : KId U) {rem rem' : List (KN
 
 /-- two inner-loop states that correspond -/
 structure AccSim (U : KNode κ → Prop) (a a' : KAcc κ) : Prop where
-  deg : DegEq a.1 a'.1
+  deg : KDegEq a.1 a'.1
   rem : a.2.1 ~ a'.2.1
   ni : a.2.2 = a'.2.2
   inU : ∀ n ∈ a.2.1, U n
 
-theorem decStep_sim {U : KNode κ → Prop} (hU : KId U) {a a' : KAcc κ} (h : AccSim U a a') (pid : ID) :
-    AccSim U (decStep a pid) (decStep a' pid) := by
+theorem kDecStep_sim {U : KNode κ → Prop} (hU : KId U) {a a' : KAcc κ} (h : AccSim U a a') (pid : ID) :
+    AccSim U (kDecStep a pid) (kDecStep a' pid) := by
   obtain ⟨deg, rem, ni⟩ := a
   obtain ⟨deg', rem', ni'⟩ := a'
   obtain ⟨hd, hr, hn, hin⟩ := h
   simp only at hd hr hn hin
   subst hn
-  rw [decStep_eq, decStep_eq, hd.decMap pid pid, find_node_perm hU hr hin pid]
+  rw [kDecStep_eq, kDecStep_eq, hd.decMap pid pid, find_node_perm hU hr hin pid]
   split
   · cases rem'.find? (fun n => n.ev.eventID == pid) with
     | none => exact ⟨hd.decMap pid, hr, rfl, hin⟩
@@ -163,14 +163,14 @@ theorem decStep_sim {U : KNode κ → Prop} (hU : KId U) {a a' : KAcc κ} (h : A
   · exact ⟨hd.decMap pid, hr, rfl, hin⟩
 
 theorem decFold_sim {U : KNode κ → Prop} (hU : KId U) (pids : List ID) {a a' : KAcc κ} (h : AccSim U a a') :
-    AccSim U (pids.foldl decStep a) (pids.foldl decStep a') := by
+    AccSim U (pids.foldl kDecStep a) (pids.foldl kDecStep a') := by
   induction pids generalizing a a' with
   | nil => exact h
-  | cons p ps ih => rw [List.foldl_cons, List.foldl_cons]; exact ih (decStep_sim hU h p)
+  | cons p ps ih => rw [List.foldl_cons, List.foldl_cons]; exact ih (kDecStep_sim hU h p)
 
 theorem kahnLoop_sim (lt : κ → κ → Bool) (parents : Event → List ID) {U : KNode κ → Prop} (hU : KId U) :
     ∀ (fuel : Nat) (rem rem' : List (KNode κ)) (deg deg' : List (ID × Nat)) (ni graph : List (KNode κ)),
-      rem ~ rem' → (∀ n ∈ rem, U n) → DegEq deg deg' →
+      rem ~ rem' → (∀ n ∈ rem, U n) → KDegEq deg deg' →
       (kahnLoop lt parents fuel rem deg ni graph).1 ~ (kahnLoop lt parents fuel rem' deg' ni graph).1 ∧
       (kahnLoop lt parents fuel rem deg ni graph).2 = (kahnLoop lt parents fuel rem' deg' ni graph).2 := by
   intro fuel
@@ -183,24 +183,24 @@ theorem kahnLoop_sim (lt : κ → κ → Bool) (parents : Event → List ID) {U 
     cases r with
     | nil => exact ⟨hr, rfl⟩
     | cons node restRev =>
-      have hs : AccSim U ((parents node.ev).foldl decStep (deg, rem, restRev.reverse))
-          ((parents node.ev).foldl decStep (deg', rem', restRev.reverse)) :=
+      have hs : AccSim U ((parents node.ev).foldl kDecStep (deg, rem, restRev.reverse))
+          ((parents node.ev).foldl kDecStep (deg', rem', restRev.reverse)) :=
         decFold_sim hU _ ⟨hd, hr, rfl, hin⟩
       simp only
       rw [hs.ni]
       exact ih _ _ _ _ _ _ hs.rem hs.inU hs.deg
 
-theorem kahnZero_perm {d d' : List (ID × Nat)} (hd : DegEq d d') {nodes nodes' : List (KNode κ)} (hp : nodes ~ nodes') :
+theorem kahnZero_perm {d d' : List (ID × Nat)} (hd : KDegEq d d') {nodes nodes' : List (KNode κ)} (hp : nodes ~ nodes') :
     kahnZero d nodes ~ kahnZero d' nodes' := by
   unfold kahnZero
-  have : nodes.filter (fun n => degOf d n.ev.eventID == some 0) = nodes.filter (fun n => degOf d' n.ev.eventID == some 0) :=
+  have : nodes.filter (fun n => kDegOf d n.ev.eventID == some 0) = nodes.filter (fun n => kDegOf d' n.ev.eventID == some 0) :=
     List.filter_congr (fun n _ => by rw [hd])
   rw [this]; exact hp.filter _
 
-theorem kahnRemaining_perm {d d' : List (ID × Nat)} (hd : DegEq d d') {nodes nodes' : List (KNode κ)} (hp : nodes ~ nodes') :
+theorem kahnRemaining_perm {d d' : List (ID × Nat)} (hd : KDegEq d d') {nodes nodes' : List (KNode κ)} (hp : nodes ~ nodes') :
     kahnRemaining d nodes ~ kahnRemaining d' nodes' := by
   unfold kahnRemaining
-  have : nodes.filter (fun n => !(degOf d n.ev.eventID == some 0)) = nodes.filter (fun n => !(degOf d' n.ev.eventID == some 0)) :=
+  have : nodes.filter (fun n => !(kDegOf d n.ev.eventID == some 0)) = nodes.filter (fun n => !(kDegOf d' n.ev.eventID == some 0)) :=
     List.filter_congr (fun n _ => by rw [hd])
   rw [this]; exact hp.filter _
 
@@ -215,23 +215,23 @@ theorem kahn_input_order_irrelevant (lt : κ → κ → Bool) (hlt : StrictTotal
   have hU : KId (fun n => n ∈ n1 ++ n2) := fun a b ha hb h => hids a ha b hb h
   have hl1 : ∀ n ∈ n1, n ∈ n1 ++ n2 := fun n hn => List.mem_append_left _ hn
   have hl2 : ∀ n ∈ n2, n ∈ n1 ++ n2 := fun n hn => List.mem_append_right _ hn
-  have hp : kahnNodes n1 ~ kahnNodes n2 := kahnNodes_perm hU hl1 hl2 hset
-  have hd : DegEq (kahnInDeg parents (kahnNodes n1)) (kahnInDeg parents (kahnNodes n2)) := kahnInDeg_perm parents hp
+  have hp : kNodes n1 ~ kNodes n2 := kNodes_perm hU hl1 hl2 hset
+  have hd : KDegEq (kahnInDeg parents (kNodes n1)) (kahnInDeg parents (kNodes n2)) := kahnInDeg_perm parents hp
   have hkeyInj : ∀ l : List (KNode κ), (∀ n ∈ l, n ∈ n1) → KeyInj KNode.key l :=
     fun l hl a ha b hb hk => hids a (hl1 a (hl a ha)) b (hl1 b (hl b hb)) (hkey a (hl a ha) b (hl b hb) hk)
-  have hz : sortBy (fun a b => lt a.key b.key) (kahnZero (kahnInDeg parents (kahnNodes n1)) (kahnNodes n1))
-      = sortBy (fun a b => lt a.key b.key) (kahnZero (kahnInDeg parents (kahnNodes n2)) (kahnNodes n2)) :=
+  have hz : sortBy (fun a b => lt a.key b.key) (kahnZero (kahnInDeg parents (kNodes n1)) (kNodes n1))
+      = sortBy (fun a b => lt a.key b.key) (kahnZero (kahnInDeg parents (kNodes n2)) (kNodes n2)) :=
     sortBy_unique KNode.key hlt (kahnZero_perm hd hp)
-      (hkeyInj _ (fun n hn => mem_kahnNodes (List.mem_filter.mp hn).1))
+      (hkeyInj _ (fun n hn => mem_kNodes (List.mem_filter.mp hn).1))
   have hrem := kahnRemaining_perm hd hp
-  have hremU : ∀ n ∈ kahnRemaining (kahnInDeg parents (kahnNodes n1)) (kahnNodes n1), n ∈ n1 ++ n2 :=
-    fun n hn => hl1 n (mem_kahnNodes (List.mem_filter.mp hn).1)
+  have hremU : ∀ n ∈ kahnRemaining (kahnInDeg parents (kNodes n1)) (kNodes n1), n ∈ n1 ++ n2 :=
+    fun n hn => hl1 n (mem_kNodes (List.mem_filter.mp hn).1)
   rw [kahn_eq, kahn_eq, hp.length_eq, hz]
-  obtain ⟨h1, h2⟩ := kahnLoop_sim lt parents hU ((kahnNodes n2).length + 1) _ _ _ _
-    (sortBy (fun a b => lt a.key b.key) (kahnZero (kahnInDeg parents (kahnNodes n2)) (kahnNodes n2))) [] hrem hremU hd
+  obtain ⟨h1, h2⟩ := kahnLoop_sim lt parents hU ((kNodes n2).length + 1) _ _ _ _
+    (sortBy (fun a b => lt a.key b.key) (kahnZero (kahnInDeg parents (kNodes n2)) (kNodes n2))) [] hrem hremU hd
   unfold kahnOut
   rw [h2, sortBy_unique KNode.key hlt h1
-    (hkeyInj _ (fun n hn => mem_kahnNodes (List.mem_filter.mp (kahnLoop_rem_sub lt parents _ _ _ _ _ hn)).1))]
+    (hkeyInj _ (fun n hn => mem_kNodes (List.mem_filter.mp (kahnLoop_rem_sub lt parents _ _ _ _ _ hn)).1))]
 
 end
 
@@ -243,10 +243,10 @@ def authNode (authMap : List Event) (createEv : Option Event) (e : Event) : KNod
 def prevNode (e : Event) : KNode OtherKey :=
   { ev := e, key := ({ pos := 0, steps := 0, ts := e.originServerTS, id := e.eventID } : OtherKey) }
 
-theorem reverseTopoAuth_eq (authMap : List Event) (createEv : Option Event) (evs : List Event) :
+theorem reverseTopoAuth_eq_kahn (authMap : List Event) (createEv : Option Event) (evs : List Event) :
     reverseTopoAuth authMap createEv evs = kahn powerLt (fun e => e.authEventIDs) (evs.map (authNode authMap createEv)) := rfl
 
-theorem reverseTopoPrev_eq (evs : List Event) :
+theorem reverseTopoPrev_eq_kahn (evs : List Event) :
     reverseTopoPrev evs = kahn otherLt (fun e => e.prevEventIDs) (evs.map prevNode) := rfl
 
 /-- nodes built from events by a function that stores the event: IDs identify nodes when they identify events -/
@@ -262,7 +262,7 @@ theorem mapNode_ids {κ : Type} (mk : Event → KNode κ) (hmk : ∀ e, (mk e).e
 theorem reverseTopoAuth_input_order_irrelevant (authMap : List Event) (createEv : Option Event) {l1 l2 : List Event}
     (hU : IdsIn (l1 ++ l2)) (h : SameSet l1 l2) :
     reverseTopoAuth authMap createEv l1 = reverseTopoAuth authMap createEv l2 := by
-  rw [reverseTopoAuth_eq, reverseTopoAuth_eq]
+  rw [reverseTopoAuth_eq_kahn, reverseTopoAuth_eq_kahn]
   refine kahn_input_order_irrelevant powerLt powerLt_strictTotal _ _ _
     (mapNode_ids (authNode authMap createEv) (fun _ => rfl) hU) ?_ (h.map _)
   intro a ha b hb hk
@@ -272,7 +272,7 @@ theorem reverseTopoAuth_input_order_irrelevant (authMap : List Event) (createEv 
 
 theorem reverseTopoPrev_input_order_irrelevant {l1 l2 : List Event} (hU : IdsIn (l1 ++ l2)) (h : SameSet l1 l2) :
     reverseTopoPrev l1 = reverseTopoPrev l2 := by
-  rw [reverseTopoPrev_eq, reverseTopoPrev_eq]
+  rw [reverseTopoPrev_eq_kahn, reverseTopoPrev_eq_kahn]
   refine kahn_input_order_irrelevant otherLt otherLt_strictTotal _ _ _
     (mapNode_ids prevNode (fun _ => rfl) hU) ?_ (h.map _)
   intro a ha b hb hk
@@ -282,13 +282,13 @@ theorem reverseTopoPrev_input_order_irrelevant {l1 l2 : List Event} (hU : IdsIn 
 
 theorem reverseTopoAuth_subset (authMap : List Event) (createEv : Option Event) {l : List Event} {e : Event}
     (h : e ∈ reverseTopoAuth authMap createEv l) : e ∈ l := by
-  rw [reverseTopoAuth_eq] at h
+  rw [reverseTopoAuth_eq_kahn] at h
   obtain ⟨n, hn, rfl⟩ := kahn_subset _ _ _ h
   obtain ⟨x, hx, rfl⟩ := List.mem_map.mp hn
   exact hx
 
 theorem reverseTopoPrev_subset {l : List Event} {e : Event} (h : e ∈ reverseTopoPrev l) : e ∈ l := by
-  rw [reverseTopoPrev_eq] at h
+  rw [reverseTopoPrev_eq_kahn] at h
   obtain ⟨n, hn, rfl⟩ := kahn_subset _ _ _ h
   obtain ⟨x, hx, rfl⟩ := List.mem_map.mp hn
   exact hx
